@@ -42,6 +42,12 @@ def gen_cases(tier, seed):
         cases.append(dict(kind="tree", spec=t))
     for t in programs.nary_trees(programs.SUB5 if tier == "quick" else programs.LEAVES, (3, 4) if tier == "quick" else (3,)):
         cases.append(dict(kind="tree", spec=t))
+    # the same configuration written in the alternative argument forms the API accepts (lists, ranges, NumPy integers,
+    # tuples vs lists for shapes): the operator must be the same operator
+    for s in opcat.leaf_specs(tier, classes={"FFT", "IFFT", "Flip", "Circshift", "Sum", "Tile", "Transpose", "Downsample", "Upsample",
+                                            "ArrayToBlocks", "BlocksToArray", "Resize", "FiniteDifference", "Wavelet"})[::17]:
+        for form in ("list", "npint", "range"):
+            cases.append(dict(kind="argform", spec=s, form=form))
     if tier == "quick":
         for t in programs.trees(programs.SUB5, 2, all_axes=False, scalars=programs.SCALARS[:2]):
             cases.append(dict(kind="tree", spec=t))
@@ -83,7 +89,86 @@ def exc_key(case, root):
     return dict(site=spec["op"], when=classify(spec) + ", raised " + type(root).__name__)
 
 
+def _reform(v, form):
+    """Rewrite an integer-sequence argument in another accepted form; returns None if not expressible."""
+    if v is None or isinstance(v, (int, float)):
+        return v
+    if not isinstance(v, (list, tuple)) or not all(isinstance(a, int) for a in v):
+        return v
+    if form == "list":
+        return list(v)
+    if form == "npint":
+        return tuple(np.int64(a) for a in v)
+    if form == "range":
+        if len(v) >= 1 and all(v[i + 1] - v[i] == 1 for i in range(len(v) - 1)):
+            return range(v[0], v[-1] + 1)
+        return None
+    return v
+
+
+def run_argform(case, seed):
+    import sigpy as sp
+    from sigpy import linop as L
+    spec = case["spec"]
+    form = case["form"]
+    op = spec["op"]
+    viol = []
+    A0 = opcat.build(spec, seed)
+    M0 = dense.dense_linop(A0)
+    g = spec.get
+    keys = {"FFT": ["axes"], "IFFT": ["axes"], "Flip": ["axes"], "Sum": ["axes"], "Tile": ["axes"], "Transpose": ["axes"],
+            "Circshift": ["axes", "shift"], "Downsample": ["factors", "shift"], "Upsample": ["factors", "shift"],
+            "ArrayToBlocks": ["B", "S"], "BlocksToArray": ["B", "S"], "Resize": ["ishift", "oshift"],
+            "FiniteDifference": ["axes"], "Wavelet": ["axes"]}[op]
+    new = {}
+    changed = False
+    for k in keys:
+        r = _reform(g(k), form)
+        if r is None and g(k) is not None:
+            return dict(states=1, transitions=1, nontrivial=False, outcome="form-not-expressible", viol=[])
+        new[k] = r
+        changed = changed or (g(k) is not None)
+    if not changed:
+        return dict(states=1, transitions=1, nontrivial=False, outcome="no-sequence-argument", viol=[])
+    shp = tuple(spec.get("shape") or spec.get("ishape")) if form != "list" else list(spec.get("shape") or spec.get("ishape"))
+    try:
+        if op in ("FFT", "IFFT"):
+            A = getattr(L, op)(shp, axes=new["axes"], center=g("center", True))
+        elif op == "Flip":
+            A = L.Flip(shp, axes=new["axes"])
+        elif op in ("Sum", "Tile"):
+            A = getattr(L, op)(shp, new["axes"])
+        elif op == "Transpose":
+            A = L.Transpose(shp, axes=new["axes"])
+        elif op == "Circshift":
+            A = L.Circshift(shp, new["shift"], axes=new["axes"])
+        elif op in ("Downsample", "Upsample"):
+            A = getattr(L, op)(shp, new["factors"], shift=new["shift"])
+        elif op in ("ArrayToBlocks", "BlocksToArray"):
+            A = getattr(L, op)(shp, new["B"], new["S"])
+        elif op == "Resize":
+            A = L.Resize(tuple(spec["oshape"]) if form != "list" else list(spec["oshape"]), shp, ishift=new["ishift"], oshift=new["oshift"])
+        elif op == "FiniteDifference":
+            A = L.FiniteDifference(shp, axes=new["axes"])
+        else:
+            A = L.Wavelet(shp, axes=new["axes"], wave_name=g("wave", "db4"), level=g("level"))
+        same_shapes = list(A.ishape) == list(A0.ishape) and list(A.oshape) == list(A0.oshape)
+        M = dense.dense_linop(A) if same_shapes else None
+        MH = dense.dense_linop(A.H) if same_shapes else None
+    except Exception as e:
+        viol.append(dict(oracle="argument-form", key=dict(site=op, when="arguments given as %s" % form),
+                         detail="the configuration %s is accepted with tuples but raises %s: %s when its integer sequences are given as %s" % (
+                             opcat.pretty(spec)[:160], type(e).__name__, str(e)[:120], form)))
+        return dict(states=1, transitions=1, nontrivial=True, outcome="violation:argument-form", viol=viol)
+    if not same_shapes or dense.relerr(M, M0) > TOL or dense.relerr(MH, M0.conj().T) > TOL:
+        viol.append(dict(oracle="argument-form", key=dict(site=op, when="arguments given as %s" % form),
+                         detail="%s: operator (or its adjoint) differs when the integer sequences are given as %s" % (opcat.pretty(spec)[:160], form)))
+    return dict(states=2, transitions=3 * M0.shape[1], nontrivial=True, outcome="ok" if not viol else "violation:argument-form", viol=viol)
+
+
 def run_case(case, seed):
+    if case["kind"] == "argform":
+        return run_argform(case, seed)
     spec = programs.strip(case["spec"])
     site = spec["op"]
     when = classify(spec)
